@@ -1,5 +1,6 @@
 import DuneVerif.Proofs.C05History
 import DuneVerif.Proofs.C05Async
+import DuneVerif.Proofs.C05Regen
 /-!
 # C05 — Interface + buffered communication move each value to exactly its matches
 
@@ -925,6 +926,67 @@ theorem attrset_tables : ∀ m, m < 16 → ∀ a, a < 4 →
     maskSet false m a = ((m >>> a) % 2 == 1) ∧ maskSet true m a = ((m >>> a) % 2 == 1) := by
   decide
 
+/-! ### round four: `strip`, the loop of `build`, the direction selectors -/
+
+/-- **strip_regenerated.**  `Interface::strip` with the erase condition as read from the current interface.hh erases
+    exactly the neighbours with two empty lists; the interface the driver computes with it (`interfaceOfG`) is the
+    `interfaceOf` of `interface_spec` / `interface_neighbours`. -/
+theorem strip_regenerated :
+    (∀ n1 n2, Gen.stripErase n1 n2 = true ↔ n1 = 0 ∧ n2 = 0) ∧ stripG = strip ∧ interfaceOfG = interfaceOf := by
+  refine ⟨fun n1 n2 => by simp [stripErase_spec], funext stripG_eq, ?_⟩
+  funext ign S T sys p
+  exact interfaceOfG_eq ign S T sys p
+
+/-- **layout_regenerated.**  The loop body of both `BufferedCommunicator::build` overloads as read from the current
+    communicator.hh — message sizes from the `first`/`second` index list with the source/target container, entry inserted
+    iff `noSend + noRecv > 0`, `MessageInformation(bufferSize_[0], noSend*sizeof)`, `MessageInformation(bufferSize_[1],
+    noRecv*sizeof)`, then `bufferSize_[0] += noSend`, `bufferSize_[1] += noRecv` — is the `layout` of
+    `slice_layout_disjoint_cover`, `recv_regions_disjoint`, `rebuild_is_fresh` …; the communicator the driver builds with
+    it (`Comm.buildG`, either overload, any previous state of the object) is `Comm.build`. -/
+theorem layout_regenerated (two : Bool) (sz : Nat) (csS csT : Nat → Nat) :
+    layoutG two sz csS csT = layout sz csS csT ∧
+    ∀ (c : Comm) (ifs : IfMap), c.buildG two sz csS csT ifs = c.build sz csS csT ifs :=
+  ⟨by funext m s0 s1; exact layoutG_eq two sz csS csT m s0 s1, fun c ifs => Comm.buildG_eq c two sz csS csT ifs⟩
+
+/-- **direction_selectors_regenerated.**  Every `FORWARD ? … : …` of `sendRecv`, of the two `MessageGatherer`s and the two
+    `MessageScatterer`s, as read from the current communicator.hh, selects what the model selects: gather from the send
+    side (`first` forward, `second` backward), scatter to the receive side; `MPI_Issend` start/size/guard from the send
+    `MessageInformation`, `MPI_Irecv` start/size/guard and the scatter position after `MPI_Waitany` from the receive one;
+    gather into `buffers_[0]` forward / `buffers_[1]` backward, receive into the other.  The members
+    `forward(data)`, `backward(data)`, `forward(source,dest)`, `backward(source,dest)` instantiate `sendRecv` with
+    `true/false/true/false` and gather from the source container forward, from the target container backward. -/
+theorem direction_selectors_regenerated (fwd : Bool) :
+    (∀ e : Info × Info,
+      pick (Gen.gatherOneSize.side fwd) e = sendSide fwd e ∧ pick (Gen.gatherOneIndex.side fwd) e = sendSide fwd e ∧
+      pick (Gen.gatherVarSize.side fwd) e = sendSide fwd e ∧ pick (Gen.gatherVarIndex.side fwd) e = sendSide fwd e ∧
+      pick (Gen.scatterOneInfo.side fwd) e = recvSide fwd e ∧ pick (Gen.scatterVarInfo.side fwd) e = recvSide fwd e) ∧
+    (∀ m : MsgInfo × MsgInfo,
+      pick (Gen.issendStart.side fwd) m = sendMsgInfo fwd m ∧ pick (Gen.issendSize.side fwd) m = sendMsgInfo fwd m ∧
+      pick (Gen.issendGuard.side fwd) m = sendMsgInfo fwd m ∧
+      pick (Gen.irecvStart.side fwd) m = recvMsgInfo fwd m ∧ pick (Gen.irecvSize.side fwd) m = recvMsgInfo fwd m ∧
+      pick (Gen.irecvGuard.side fwd) m = recvMsgInfo fwd m ∧ pick (Gen.waitanyInfo.side fwd) m = recvMsgInfo fwd m) ∧
+    (∀ {Val Data : Type} (st : PState Val Data),
+      pick (Gen.sendBuffer.side fwd) (st.b0, st.b1) = st.sendB fwd ∧ pick (Gen.recvBuffer.side fwd) (st.b0, st.b1) = st.recvB fwd) ∧
+    (∀ {Data : Type} (c : Cont Data), c.one = false →
+      Gen.forward1.fwd = true ∧ Gen.backward1.fwd = false ∧ Gen.forward2.fwd = true ∧ Gen.backward2.fwd = false ∧
+      Gen.forward1.gatherArg = 0 ∧ Gen.forward1.scatterArg = 0 ∧ Gen.backward1.gatherArg = 0 ∧ Gen.backward1.scatterArg = 0 ∧
+      argOf c Gen.forward2.gatherArg = c.get (!true) ∧ argOf c Gen.forward2.scatterArg = c.get true ∧
+      argOf c Gen.backward2.gatherArg = c.get (!false) ∧ argOf c Gen.backward2.scatterArg = c.get false) :=
+  ⟨ifaceSelectors_spec fwd, msgSelectors_spec fwd, fun st => bufSelectors_spec fwd st, fun c hc => wrappers_spec c hc⟩
+
+/-- **datatype_selectors_regenerated.**  `DatatypeCommunicator` as read from the current communicator.hh: composing which
+    `messageTypes` slot `createDataTypes<…,send>` fills, which datatype `createRequests<V,createForward>` hands to
+    `MPI_Recv_init` / `MPI_Ssend_init`, which request set it fills and which one `forward()` / `backward()` start — in
+    direction `fwd` the receives use the datatype built from the model's receive side of the (unstripped) interface entry
+    and the sends the one built from the send side (`dtNeighbours`, `datatype_calls`); the receives go to the target
+    container forward and to the source container backward, the sends leave from the other one, and each datatype is
+    applied to the container its displacements were computed on. -/
+theorem datatype_selectors_regenerated (fwd : Bool) (e : Info × Info) :
+    dtRecvList fwd e = some (recvSide fwd e) ∧ dtSendList fwd e = some (sendSide fwd e) ∧
+    dtRecvCont fwd = some (if fwd then .second else .first) ∧ dtRecvTypeCont fwd = dtRecvCont fwd ∧
+    dtSendCont fwd = some (if fwd then .first else .second) ∧ dtSendTypeCont fwd = dtSendCont fwd :=
+  dtSelectors_spec fwd e
+
 /-! ## Non-vacuity: the hypotheses are satisfiable by non-trivial decompositions
 
 `exSys`: three processes, one index set each (global, local, attribute, public); attributes 0 = owner,
@@ -1122,5 +1184,22 @@ example : (exS9.σ 1).k = 1 ∧ (exS9.σ 1).inC = true ∧ (exS9.σ 0).k = 0 ∧
 example : (2, 0) ∈ (exS4.σ 0).outS ∧ (exS4.σ 2).inC = true ∧ 0 ∈ (exS4.σ 2).pendR := by decide
 /-- async_progress / async_measure: `exS9` is not final -/
 example : ∃ p, p < ex.sys.P ∧ (exS9.σ p).k < [true, true].length := ⟨0, by decide, by decide⟩
+
+/-! ### round four -/
+-- `strip` as regenerated drops the middle neighbour (two empty lists) and keeps one with only a receive list
+example : stripG [(0, ⟨1, [4]⟩, ⟨0, []⟩), (1, ⟨0, []⟩, ⟨0, []⟩), (2, ⟨0, []⟩, ⟨1, [3]⟩)] =
+    [(0, ⟨1, [4]⟩, ⟨0, []⟩), (2, ⟨0, []⟩, ⟨1, [3]⟩)] := by decide
+example : interfaceOfG ex.ign ex.S ex.T ex.sys 0 = [(1, ⟨1, [1]⟩, ⟨1, [2]⟩), (2, ⟨1, [1]⟩, ⟨0, []⟩)] := by decide
+-- the regenerated loop of `build(source, dest, interface)` on the redistribution example: 3 components of 8 bytes
+example : layoutG true exRed.sz (exRed.csS 0) (exRed.csT 0) (exRed.iface 0) 0 0 = [(0, ⟨0, 24⟩, ⟨0, 24⟩), (1, ⟨3, 24⟩, ⟨3, 24⟩)] := by
+  decide
+-- an entry with nothing to send and nothing to receive gets no message information, the offsets do not move
+example : layoutG false 8 (fun _ => 1) (fun _ => 1) [(0, ⟨0, []⟩, ⟨0, []⟩), (1, ⟨2, [5, 6]⟩, ⟨1, [7]⟩), (3, ⟨0, []⟩, ⟨1, [2]⟩)] 0 0 =
+    [(1, ⟨0, 16⟩, ⟨0, 8⟩), (3, ⟨2, 0⟩, ⟨1, 8⟩)] := by decide
+example : pick (Gen.gatherOneIndex.side false) ((⟨1, [4]⟩, ⟨1, [9]⟩) : Info × Info) = ⟨1, [9]⟩ ∧
+    pick (Gen.scatterVarInfo.side false) ((⟨1, [4]⟩, ⟨1, [9]⟩) : Info × Info) = ⟨1, [4]⟩ := by decide
+example : (⟨(5 : Nat), 6, false⟩ : Cont Nat).one = false ∧ argOf (⟨(5 : Nat), 6, false⟩ : Cont Nat) Gen.backward2.gatherArg = 6 := by decide
+example : dtFlagOf false = some false ∧ dtPassOf (Gen.dtReqRecvType.side false) = some true ∧
+    dtRecvList false ((⟨1, [4]⟩, ⟨1, [9]⟩) : Info × Info) = some ⟨1, [4]⟩ ∧ dtRecvCont false = some .first := by decide
 
 end DV.C05
